@@ -57,6 +57,8 @@ if __name__=='__main__':
     cfg = sys.argv[2] if len(sys.argv)>2 else 'dev'
     d,h,w = facts.facts_dir(cfg)
     prog = Program(facts.load_dir(d))
+    from rules.normalize import normalize
+    print("normalize:", normalize(prog))
     for p,b in prog.bodies.items():
         if sys.argv[1] in p and '__CALLSITE' not in p:
             show(b, cleanup='--cleanup' in sys.argv)
